@@ -39,8 +39,14 @@ def showErr : Err → String
 def optInt (s : String) : Option (Option Int) := if s == "_" then some none else s.toInt?.map some
 
 /-- index tokens: `i5`  `s_a_b_c` (fields `_`-separated, `N` for None)  `l1,2`  `m1,2`  `D` (double matrix)  `O` (other) -/
-def parseIdx (s : String) : Option Idx :=
+def parseIdx (d : DS) (s : String) : Option Idx :=
   if s == "D" then some .dmat else if s == "O" then some .other
+  -- `I<name>`: the matrix bound to `name` itself used as the index (an 'i' matrix is an index list, any other matrix is refused);
+  -- value semantics: the index list is read before anything is assigned, also when the matrix indexes itself
+  else if s.startsWith "I" then (d.get (s.drop 1).toString).map fun p =>
+    match p.2.tc with
+    | .i => Idx.imat (p.2.buf.map fun v => v.re.num)
+    | _ => Idx.dmat
   else if s.startsWith "i" then (s.drop 1).toString.toInt?.map Idx.int
   else if s.startsWith "l" then (intList? (s.drop 1).toString).map Idx.list
   else if s.startsWith "m" then (intList? (s.drop 1).toString).map Idx.imat
@@ -93,20 +99,20 @@ def stepLine (d : DS) (line : String) : DS × String :=
   | ["same", a, b] => match d.get a, d.get b with
     | some p, some q => (d, toString (p.1 == q.1))
     | _, _ => (d, "bad-op")
-  | ["get1", name, i] => match d.get name, parseIdx i with
+  | ["get1", name, i] => match d.get name, parseIdx d i with
     | some p, some i => (d, showRes (getitem1 p.2 i))
     | _, _ => (d, "bad-op")
-  | ["get2", name, i, j] => match d.get name, parseIdx i, parseIdx j with
+  | ["get2", name, i, j] => match d.get name, parseIdx d i, parseIdx d j with
     | some p, some i, some j => (d, showRes (getitem2 p.2 i j))
     | _, _, _ => (d, "bad-op")
-  | ["set1", name, i, v] => match d.get name, parseIdx i, parseOpd d v with
+  | ["set1", name, i, v] => match d.get name, parseIdx d i, parseOpd d v with
     | some p, some i, some v' =>
       let al := v.startsWith "M" && ((d.get (v.drop 1).toString).map (·.1) == some p.1)
       match setitem1 p.2 i (opdToVal v') al with
       | .ok A => (d.update p.1 A, showMat A)
       | .error e => (d, showErr e)
     | _, _, _ => (d, "bad-op")
-  | ["set2", name, i, j, v] => match d.get name, parseIdx i, parseIdx j, parseOpd d v with
+  | ["set2", name, i, j, v] => match d.get name, parseIdx d i, parseIdx d j, parseOpd d v with
     | some p, some i, some j, some v' =>
       let al := v.startsWith "M" && ((d.get (v.drop 1).toString).map (·.1) == some p.1)
       match setitem2 p.2 i j (opdToVal v') al with
